@@ -3,18 +3,26 @@
 (* (every table / end map / default / hub population / splitter wiring within the bounds), hands in   *)
 (* packets, lets downstream devices rewrite header fields of what they received, and (tier "boom")    *)
 (* lets one downstream device raise.  Every completed put is emitted as an input scenario.            *)
+(* Tiers "reconf" / "reconfhub": the user changes the configuration between puts (in-place table      *)
+(* update, new table, appended output, end device (un)registered, default changed, hub endpoint       *)
+(* added); every complete script of puts and reconfiguration steps is emitted.                        *)
 EXTENDS Routing, Json
 CONSTANTS MaxFlow,     \* flows 0..MaxFlow
           MaxOuts,     \* at most this many outputs / endpoints
           MaxPuts,     \* puts per behaviour
-          Tier         \* "demux" | "boom" | "hub" | "split"
-VARIABLES mlog         \* history: header rewrites of the current put [oi, k, w, early]
-vars == <<rvars, mlog>>
+          MaxReconf,   \* reconfiguration steps per behaviour
+          Tier         \* "demux" | "boom" | "hub" | "split" | "reconf" | "reconfhub"
+VARIABLES mlog,        \* history: header rewrites of the current put [oi, k, w, early]
+          cfg0,        \* history: the configuration the element was built with
+          script       \* history (reconf tiers): the steps so far [op, f, p, tb]
+vars == <<rvars, mlog, cfg0, script>>
+Scripted == Tier \in {"reconf", "reconfhub"}
 
 Flows == 0..MaxFlow
 NF == 2                       \* model packets carry one scalar field (1) and one dictionary field (2)
 Fields0 == <<5, 0>>
 
+StepRec(op, f, p, tb) == [op |-> op, f |-> f, p |-> p, tb |-> tb]
 \* a table as a sequence of <<flow, port>>: v[f] = 0 means "no entry for f"
 TableOf(v) == SelectSeq([i \in 1..(MaxFlow + 1) |-> <<i - 1, v[i - 1]>>], LAMBDA e : e[2] # 0)
 EndsOf(E) == SelectSeq([i \in 1..(MaxFlow + 1) |-> i - 1], LAMBDA x : x \in E)
@@ -38,23 +46,48 @@ SplitCfgs(z) == {[Base("split", 2) EXCEPT !.conn = p] : p \in [1..2 -> {0, 1}]}
                 \cup UNION {{[Base("nsplit", n) EXCEPT !.conn = p] : p \in [1..n -> {0, 1}]} : n \in 2..MaxOuts}
 
 \* (no big unions here: TLC's \cup / UNION on explicit sets is quadratic)
-Init == /\ mlog = <<>>
+\* tables whose entries may name a port that does not exist (yet)
+AnyTable == {TableOf(v) : v \in [Flows -> 0..MaxOuts]}
+ReconfCfgs(kd, lo) ==
+  {[Base(kd, n) EXCEPT !.dflt = d, !.table = t, !.ends = EndsOf(E)] :
+      n \in lo..MaxOuts, d \in {0, 1}, E \in SUBSET Flows, t \in AnyTable}
+
+Init == /\ mlog = <<>> /\ script = <<>>
         /\ \/ Tier = "demux" /\ \E c \in FlowCfgs : InitWith(c)
            \/ Tier = "demux" /\ \E c \in FibCfgs("fib", 0) : InitWith(c)
            \/ Tier = "demux" /\ \E c \in FibCfgs("fair", 1) : InitWith(c)
            \/ Tier = "boom" /\ \E c \in BoomCfgs(0) : InitWith(c)
            \/ Tier = "hub" /\ \E c \in HubCfgs(0) : InitWith(c)
            \/ Tier = "split" /\ \E c \in SplitCfgs(0) : InitWith(c)
+           \/ Tier = "reconf" /\ \E c \in FlowCfgs : InitWith(c)
+           \/ Tier = "reconf" /\ \E c \in ReconfCfgs("fib", 0) : InitWith(c)
+           \/ Tier = "reconf" /\ \E c \in ReconfCfgs("fair", 1) : InitWith(c)
+           \/ Tier = "reconfhub" /\ \E c \in HubCfgs(0) : InitWith(c)
+        /\ cfg0 = cfg
 
 EnvPut ==
   /\ cur.n < MaxPuts
   /\ \E f \in (IF cfg.kind \in DemuxKinds THEN Flows ELSE {0}),
-        s \in (IF cfg.kind = "hub" THEN 0..cfg.nouts ELSE {0}) : PutIn(f, s, Fields0)
-  /\ mlog' = <<>>
-DoDeliver == (\E out \in owed, o \in 1..(Len(heap) + 1) : Deliver(out, o)) /\ UNCHANGED mlog
-DoPortForward == (\E p \in via : PortForward(p[1], p[2])) /\ UNCHANGED mlog
-DoReturn == Return /\ UNCHANGED mlog
-DoRaise == Raise /\ UNCHANGED mlog
+        s \in (IF cfg.kind = "hub" THEN 0..cfg.nouts ELSE {0}) :
+       /\ PutIn(f, s, Fields0)
+       /\ script' = IF Scripted THEN Append(script, StepRec("put", f, s, <<>>)) ELSE script
+  /\ mlog' = <<>> /\ UNCHANGED cfg0
+Hist == <<mlog, cfg0, script>>
+DoDeliver == (\E out \in owed, o \in 1..(Len(heap) + 1) : Deliver(out, o)) /\ UNCHANGED Hist
+DoPortForward == (\E p \in via : PortForward(p[1], p[2])) /\ UNCHANGED Hist
+DoReturn == Return /\ UNCHANGED Hist
+DoRaise == Raise /\ UNCHANGED Hist
+\* the user changes the configuration between two puts
+NRec == Cardinality({i \in DOMAIN script : script[i].op # "put"})
+Did(op, f, p, tb) == script' = Append(script, StepRec(op, f, p, tb)) /\ mlog' = <<>> /\ UNCHANGED cfg0
+EnvSetEntry == Scripted /\ NRec < MaxReconf /\ \E f \in Flows, p \in 1..MaxOuts : SetEntry(f, p) /\ Did("set", f, p, <<>>)
+EnvDelEntry == Scripted /\ NRec < MaxReconf /\ \E f \in Flows : DelEntry(f) /\ Did("del", f, 0, <<>>)
+EnvReplaceTable == Scripted /\ NRec < MaxReconf /\ \E t \in AnyTable : ReplaceTable(t) /\ Did("table", 0, 0, t)
+EnvAppendOut == Scripted /\ NRec < MaxReconf /\ cfg.nouts < MaxOuts /\ AppendOut /\ Did("out", 0, 0, <<>>)
+EnvSetEnd == Scripted /\ NRec < MaxReconf /\ \E f \in Flows : SetEnd(f) /\ Did("end", f, 0, <<>>)
+EnvDelEnd == Scripted /\ NRec < MaxReconf /\ \E f \in Flows : DelEnd(f) /\ Did("unend", f, 0, <<>>)
+EnvSetDefault == Scripted /\ NRec < MaxReconf /\ \E d \in {0, 1} \ {cfg.dflt} : SetDefault(d) /\ Did("dflt", 0, d, <<>>)
+EnvAddEndpoint == Scripted /\ NRec < MaxReconf /\ cfg.nouts < MaxOuts /\ \E pd \in {0, 1} : AddEndpoint(pd) /\ Did("join", 0, pd, <<>>)
 \* a device that received object o rewrites one of its header fields (each field of each object once)
 Holder(o) == CHOOSE i \in DOMAIN dl : dl[i].obj = o
 EnvModify ==
@@ -65,15 +98,20 @@ EnvModify ==
             /\ Modify(o, k, w)
             /\ mlog' = Append(mlog, [oi |-> dl[Holder(o)].oi, k |-> k, w |-> w,
                                      early |-> IF phase = "busy" THEN 1 ELSE 0])
-Next == EnvPut \/ DoDeliver \/ DoPortForward \/ DoReturn \/ DoRaise \/ EnvModify
+            /\ UNCHANGED <<cfg0, script>>
+Next == \/ EnvPut \/ DoDeliver \/ DoPortForward \/ DoReturn \/ DoRaise \/ EnvModify
+        \/ EnvSetEntry \/ EnvDelEntry \/ EnvReplaceTable \/ EnvAppendOut \/ EnvSetEnd \/ EnvDelEnd
+        \/ EnvSetDefault \/ EnvAddEndpoint
 Spec == Init /\ [][Next]_vars
 
 \* one input scenario = configuration + packet handed in (+, for splitters, a maximal set of header rewrites
 \* with their position relative to the return of put)
-Complete == IF cfg.kind \in SplitKinds
+\* (reconf tiers: a script is complete with its last put)
+Complete == IF Scripted THEN phase = "busy" /\ dl = <<>> /\ cur.n = MaxPuts
+            ELSE IF cfg.kind \in SplitKinds
             THEN phase \in {"done", "failed"} /\ Len(mlog) = NF * Len(heap)
             ELSE phase = "busy" /\ dl = <<>>
-Emit == Complete => PrintT(<<"EMIT", ToJson([cfg |-> cfg, f |-> cur.f, s |-> cur.s, mods |-> mlog])>>)
+Emit == Complete => PrintT(<<"EMIT", ToJson([cfg |-> cfg0, f |-> cur.f, s |-> cur.s, mods |-> mlog, script |-> script])>>)
 
 (* "header fields can be changed independently": every object's fields are those of the packet as   *)
 (* handed in plus exactly the rewrites made to THAT object, whatever was done to the others          *)
